@@ -10,6 +10,6 @@ PROPERTIES = {
         "`terminate after`, `do ... for` and maxSteps",
         note="simulator, scenarios, agents' behaviors and monitors are modelled objects whose methods log events and return every documented kind of result",
         assumptions=["A1: durations in seconds are N / timestep over the reals (float effects such as 1.1/0.1 > 11 are not seen)"],
-        not_reached=["simulator back ends", "the stuck-behavior alarm", "compiler: generateInvocation / makeDoLike / visit_Wait* / visit_Do* / visit_Terminate* (see compiler_do.py of the main session if present)", "DynamicScenario._invokeInner (sub-scenario stepping generator)", "Simulation.updateObjects (read-back order)"],
+        not_reached=["simulator back ends", "the stuck-behavior alarm", "compiler: visit_Wait* / visit_Terminate* and the plain visit_Do / visit_DoFor / visit_DoUntil (visit_DoChoose / visit_DoShuffle with makeDoLike and generateInvocation inlined are under contract for C19, contracts/compiler_do.py)", "DynamicScenario._invokeInner (sub-scenario stepping generator)", "Simulation.updateObjects (read-back order)"],
     )
 }
